@@ -527,6 +527,8 @@ pub struct Machine {
     pub steps: u64,
     /// An INPUT statement has been reached and waits for a reply: (target, continuation, line).
     pub pending_input: Option<(LVal, Pos, u64)>,
+    /// Number of control transfers executed (GOTO, GOSUB, RETURN, loop back-edges, THEN line).
+    pub jumps: u64,
 }
 
 type R<T> = Result<T, Fail>;
@@ -555,6 +557,7 @@ impl Machine {
             cur_line: 0,
             steps: 0,
             pending_input: None,
+            jumps: 0,
         }
     }
 
@@ -772,6 +775,7 @@ impl Machine {
     fn goto(&mut self, n: u64) -> R<()> {
         if self.lines.contains_key(&n) {
             self.pos = Pos::At(n, 0);
+            self.jumps += 1;
             Ok(())
         } else {
             Err(UNDEFINED_STATEMENT)
@@ -915,7 +919,10 @@ impl Machine {
                 self.frames.push(Frame::Sub(after));
             }
             Stmt::Return => match self.frames.pop() {
-                Some(Frame::Sub(p)) => self.pos = p,
+                Some(Frame::Sub(p)) => {
+                    self.pos = p;
+                    self.jumps += 1;
+                }
                 _ => return Err(RETURN_WITHOUT_GOSUB),
             },
             Stmt::End => self.pos = Pos::Ended,
@@ -955,6 +962,7 @@ impl Machine {
                 let nv = cur + lp.step;
                 let again = if lp.step >= 0.0 { nv <= lp.to } else { nv >= lp.to };
                 if again {
+                    self.jumps += 1;
                     self.pos = lp.resume.clone();
                     self.loops.push(lp);
                 }
